@@ -199,10 +199,25 @@ async fn recover(dir: &Path, validate: bool, nkeys: u64, payloads: &HashMap<u64,
     let w = st.write(&key, Bytes::from(data.clone()), BlobRecordTimestamp::new(9)).await;
     let closed = d.shutdown(true).await;
     if w.is_ok() && closed.is_ok() {
-        let mut d2 = Driver::<N>::new(cfg, dir.to_path_buf(), nkeys);
+        let mut d2 = Driver::<N>::new(cfg.clone(), dir.to_path_buf(), nkeys);
         if d2.open(false).await.is_ok() {
-            if let Ok(pearl::ReadResult::Found(b)) = d2.storage.as_ref().unwrap().read(&key).await { o.after_ok = b[..] == data[..]; }
-            let _ = d2.shutdown(true).await;
+            let mut ok = false;
+            if let Ok(pearl::ReadResult::Found(b)) = d2.storage.as_ref().unwrap().read(&key).await { ok = b[..] == data[..]; }
+            // ... and a second one, this time after another crash: the storage goes away without close
+            // and the index files are lost, so the next start scans the blobs again
+            let data2 = payload(888_888, 25);
+            let key2 = model_key::<N>(nkeys + 2);
+            let w2 = d2.storage.as_ref().unwrap().write(&key2, Bytes::from(data2.clone()), BlobRecordTimestamp::new(9)).await;
+            let _ = d2.shutdown(false).await;
+            for (_, is_index, p) in list_files(dir) { if is_index { let _ = std::fs::remove_file(p); } }
+            let mut d3 = Driver::<N>::new(cfg, dir.to_path_buf(), nkeys);
+            if w2.is_ok() && d3.open(false).await.is_ok() {
+                let st3 = d3.storage.as_ref().unwrap();
+                let a = matches!(st3.read(&key).await, Ok(pearl::ReadResult::Found(ref b)) if b[..] == data[..]);
+                let b2 = matches!(st3.read(&key2).await, Ok(pearl::ReadResult::Found(ref b)) if b[..] == data2[..]);
+                o.after_ok = ok && a && b2;
+                let _ = d3.shutdown(true).await;
+            }
         }
     }
     o
